@@ -284,7 +284,8 @@ def coverage(prog, rep, sd: FuncInfo) -> None:
                 if len(ps) != len(n.args):
                     raise AnalysisError(f"{sd.short}: call of the local wrapper `{d.name}` does not match its parameters")
                 sub = dict(zip(ps, n.args))
-                vc = ast.Call(func=inner.func, args=[sub[a.id] if isinstance(a, ast.Name) and a.id in sub else a for a in inner.args], keywords=[])
+                vc = ast.Call(func=inner.func, args=[sub[a.id] if isinstance(a, ast.Name) and a.id in sub else a for a in inner.args],
+                              keywords=[ast.keyword(arg=k.arg, value=sub[k.value.id] if isinstance(k.value, ast.Name) and k.value.id in sub else k.value) for k in inner.keywords])
                 ast.copy_location(vc, n)
                 vc._site = n
                 virt.append(vc)
@@ -293,8 +294,17 @@ def coverage(prog, rep, sd: FuncInfo) -> None:
     DC = "pygradflow.params.DerivCheck"
     ev = "self.evaluator"
     LP = "__lam__"
+    dcf = prog.func("pygradflow.deriv_check.deriv_check")
+    dps = [p for p in dcf.params][:4]
     for c in calls:
         si = ff.stmt_of(getattr(c, "_site", c))
+        if c.keywords:
+            # keyword spelling: put the arguments into positional order
+            b_ = bind_args(dcf, c)
+            if b_ is not None and all(p in b_ and isinstance(b_[p], ast.AST) for p in dps):
+                c2 = ast.copy_location(ast.Call(func=c.func, args=[b_[p] for p in dps], keywords=[]), c)
+                c2._site = getattr(c, "_site", c)
+                c = c2
         lam = c.args[0] if c.args else None
         lam_body = None
         if isinstance(lam, ast.Name):
